@@ -18,6 +18,7 @@ def check(ctx):
     hayson.check_member_loop(ctx, rep)
     ntd = hayson.check_typed_deserializers(ctx, rep)
     nmg = hayson.check_member_guards(ctx, rep)
+    hayson.check_nonfinite_spellings(ctx, rep)
     noc = hayson.check_optional_members_complete(ctx, rep)
     rep.floor("optional Hayson members tied to an Option field", noc, 6)
     nrb = hayson.check_members_read_before_ok(ctx, rep)
